@@ -2,6 +2,13 @@
 
 CHECKS = {}
 
+# properties not (yet) claimed, with the reason; entries are dropped automatically once a check exists
+NOT_APPLICABLE = {
+    "C19": "The description language is built on fmt formatting of a symbolic text, a rune-classifying lexer and lexer/parser goroutines communicating over channels; goroutine scheduling is not a symbolic variable of a sequential SSA executor and enumerating concrete texts would be testing, not solver-based checking (DESIGN.md §5 C19).",
+}
+for _p in ["C01", "C02", "C03", "C04", "C05", "C06", "C07", "C08", "C09", "C10", "C12", "C13", "C14", "C15", "C16", "C18", "C20"]:
+    NOT_APPLICABLE[_p] = "no check registered yet in this revision (planned, see DESIGN.md §5); not claimed"
+
 def H(pkg, files, func, reach=(), quick=None, thorough=None, **kw):
     d = {"pkg": pkg, "files": files if isinstance(files, list) else [files], "func": func, "reach": list(reach),
          "quick": quick or {}, "thorough": thorough or quick or {}}
@@ -28,4 +35,19 @@ CHECKS["C11"] = {
     "assumptions": ["SimpleGlyph value domain: Encoded is a complete unpadded description (what glyf.Decode delivers)",
                     "CompositeGlyph value domain: MORE_COMPONENTS set on all but the last component, argument data length as implied by flags, Instructions non-nil iff some component has WE_HAVE_INSTRUCTIONS",
                     "coordinates outside int16 are outside the format (points compared only when in range)"],
+}
+
+CHECKS["C17"] = {
+    "harnesses": [
+        H("parser", "c17.go", "VerifH_C17_history", ["done"],
+          quick={"params": {"steps": 2, "shorts": 1}, "timeout": 280, "shards": 12},
+          thorough={"params": {"steps": 3, "shorts": 2}, "timeout": 2400, "shards": 12}),
+        H("parser", "c17.go", "VerifH_C17_deep", ["done"],
+          quick={"params": {"steps": 2, "shorts": 1}, "timeout": 280, "shards": 8},
+          thorough={"params": {"steps": 3, "shorts": 2}, "timeout": 2400, "shards": 8}),
+    ],
+    "bounds": {"quick": "file lengths {0,1,3,5,1023,1024,1025,2047,2048,2050,3072,5000} with fully symbolic contents; every sequence of 2 operations over the 9 operation kinds from New() and from a state 1000 bytes into the file; seek targets symbolic within +-2 of {0, L, L/2, 1024, 2048}; read sizes symbolic near 0 and 1024 plus {512,700,2100,negative}; reader may return 1 short read (1 byte or n-1 bytes) or the final bytes together with io.EOF",
+               "thorough": "as quick with 3 operations and 2 short reads"},
+    "outside": ["file lengths other than the 12 listed", "seek targets/read sizes away from the listed windows", "readers returning (0, nil) forever or non-EOF errors (C18)", "histories longer than 3 operations"],
+    "assumptions": ["reader obeys the io.Reader/io.Seeker contracts; short reads limited per run", "ReadUint16Slice counts <= 2"],
 }
